@@ -7,18 +7,21 @@ import PyrollModel.EvalDriver
     contour <x bits> <y bits> <x bits> <y bits> ...   -> ok <n>          (roll contour = groove contour)
     env k=<bits> k=<bits> ...                          -> ok              (`@valid` = 0 makes `is_valid` answer False)
     run <program>                                      -> `ok <x y x y ...> # <meas>=<bits> ...` | `raised <exc> # ...`
-    cache <two|three> <g0 bits> <g1 bits> ...          -> `ok used=<bits|none> lines=.. ucs=.. gap=..`: one `Unit.solve` of a fresh
-                                                          pass in the model `OutCS.Cache` (generated memo, `reevaluate_cache`
-                                                          chain, loop body, `init_solve`); the gap hook answers g0 during
-                                                          `init_solve` and g_k in iteration k
+    cache <two|three> <solve> [/ <solve>]*             -> `ok used=<prov|none> lines=.. ucs=.. gap=<bits|none>`: the history of ONE
+                                                          pass object, fresh at the start, in the model `OutCS.Cache` (generated
+                                                          memos, `reevaluate_cache` chains of pass and roll, loop body,
+                                                          `init_solve`); <solve> = `<k> <new|same> <g0 bits> <g1 bits> ...`:
+                                                          `Unit.solve` with groove number k on the rolls (`new`: on a roll object
+                                                          put in just before), the gap hook answering g0 during `init_solve` and
+                                                          g_i in iteration i; <prov> = `<gap bits>:<k of the roll's contour
+                                                          line>:<k read directly | ->`
     <formula name> k=<bits> ...                        -> EvalDriver (generated formula table)
 -/
 namespace OutCSDriver
 open OutCS PassGeom
 
 structure CacheCfg where
-  memo : Cache.Memo
-  chain : List (List Cache.ROp)
+  pass : Cache.Pass
   loop : List Cache.LStep
   init : List Cache.IOp
 
@@ -45,6 +48,26 @@ def parsePts : List String → Option (List (Pt Float))
 def showPts (l : List (Pt Float)) : String :=
   " ".intercalate (l.map fun p => floatToBitsStr p.x ++ " " ++ floatToBitsStr p.y)
 
+/-- `<k> <new|same> <g0 bits> <g1 bits> ...` -/
+def parseSolve : List String → Option (List (Cache.Act Float Nat))
+  | k :: fresh :: g0 :: rest => do
+    let k ← k.toNat?
+    let a ← floatOfBitsStr g0
+    let gs ← rest.mapM floatOfBitsStr
+    let pre ← (if fresh = "new" then some [Cache.Act.newRoll] else if fresh = "same" then some [] else none)
+    pure (pre ++ [Cache.Act.solve k a gs])
+  | _ => none
+
+/-- split at the `/` tokens (one structural recursion; `cur` = the tokens of the current part, reversed) -/
+def splitSolves : List String → List String → List (List String)
+  | [], cur => [cur.reverse]
+  | t :: rest, cur => if t = "/" then cur.reverse :: splitSolves rest [] else splitSolves rest (t :: cur)
+
+def showProv (o : Option (Cache.Prov Float Nat)) : String :=
+  match o with
+  | some v => floatToBitsStr v.gap ++ ":" ++ toString v.line ++ ":" ++ (match v.direct with | some d => toString d | none => "-")
+  | none => "none"
+
 def handle (cfg : Cfg) (st : St) (line : String) : St × String :=
   match Proto.toks line with
   | "contour" :: rest =>
@@ -67,15 +90,15 @@ def handle (cfg : Cfg) (st : St) (line : String) : St × String :=
       match p.run S ρ with
       | .ok g => (st, "ok " ++ showPts g ++ " # " ++ ms)
       | .raised e => (st, "raised " ++ e ++ " # " ++ ms)
-  | "cache" :: which :: g0 :: rest =>
-    match cfg.caches.find? (fun p => p.1 = which), floatOfBitsStr g0, rest.mapM floatOfBitsStr with
-    | some (_, c), some a, some gs =>
-      let s := Cache.solve c.memo c.chain c.loop c.init a gs ({} : Cache.St Float)
+  | "cache" :: which :: rest =>
+    match cfg.caches.find? (fun p => p.1 = which), (splitSolves rest []).mapM parseSolve with
+    | some (_, c), some acts =>
+      let s := Cache.history c.pass c.loop c.init acts.flatten ({} : Cache.St Float Nat)
       let sh := fun (o : Option Float) => match o with
         | some x => floatToBitsStr x
         | none => "none"
-      (st, s!"ok used={sh s.used.head?} lines={sh s.lines} ucs={sh s.ucs} gap={sh s.gapC}")
-    | _, _, _ => (st, "bad-op")
+      (st, s!"ok used={showProv s.used.head?} lines={showProv s.lines} ucs={showProv s.ucs} gap={sh s.gapC}")
+    | _, _ => (st, "bad-op")
   | _ => (st, EvalDriver.handle cfg.table line)
 
 partial def loop (cfg : Cfg) (h : IO.FS.Stream) (st : St) : IO Unit := do
